@@ -15,3 +15,65 @@ UNITS.append(dict(
     selftest=[('__gmpz_realloc', r'\(m\)->_mp_alloc\)\) \* sizeof', '(m)->_mp_alloc) + 1) * sizeof'),
               ('__gmpz_realloc', r'> new_alloc\)', '> new_alloc + 1)')],
 ))
+
+# ------------------------------------------------------------------ init / clear / realloc2 families against the allocator model
+STUBS = '#include "/verif/contracts/alloc_stubs.h"\n'
+def lifecycle(name, src, fn, contract, harness, props=('C04', 'C15'), muts=(), contracts=('mpz.h',)):
+    return dict(name=name, props=list(props), source=src, contracts=list(contracts), contract_text=contract, enforce=[fn],
+                harness=STUBS + harness, cbmc_flags=['--memory-leak-check'], selftest=[(fn,) + m for m in muts])
+UNITS.append(lifecycle('mpz_init', 'mpz/init.c', '__gmpz_init',
+    'void __gmpz_init (mpz_ptr x) __CPROVER_requires (__CPROVER_w_ok (x, sizeof (*x))) __CPROVER_assigns (*x) __CPROVER_ensures (V_WF (x) && V_SIZ (x) == 0 && V_ALLOC (x) == 1 && __CPROVER_is_fresh (V_PTR (x), 8));\n',
+    'void h_mpz_init (void) { V_INSTALL_ALLOCATOR (); __mpz_struct X; __gmpz_init (&X); free (X._mp_d); }',
+    muts=[(r'x->_mp_size = 0;', 'x->_mp_size = 1;')]))
+UNITS.append(lifecycle('mpz_init2', 'mpz/init2.c', '__gmpz_init2',
+    '''void __gmpz_init2 (mpz_ptr x, mp_bitcnt_t bits)
+__CPROVER_requires (__CPROVER_w_ok (x, sizeof (*x)) && bits <= 64 * (mp_bitcnt_t) V_ZMAX)
+__CPROVER_assigns (*x)
+__CPROVER_ensures (V_WF (x) && V_SIZ (x) == 0 && (mp_bitcnt_t) V_ALLOC (x) * 64 >= bits && V_ALLOC (x) == (bits == 0 ? 1 : (long) ((bits + 63) / 64)));
+''',
+    'void h_mpz_init2 (void) { V_INSTALL_ALLOCATOR (); __mpz_struct X; mp_bitcnt_t b = nondet_ulong (); __gmpz_init2 (&X, b); free (X._mp_d); }',
+    muts=[(r'limbs = \(\(limbs\) > \(1\) \? \(limbs\) : \(1\)\);', ';')]))
+UNITS.append(lifecycle('mpz_clear', 'mpz/clear.c', '__gmpz_clear',
+    'void __gmpz_clear (mpz_ptr m) __CPROVER_requires (V_WF (m)) __CPROVER_assigns () __CPROVER_frees (V_PTR (m));\n',
+    'void h_mpz_clear (void) {\n  V_INSTALL_ALLOCATOR ();\n' + mpz_obj('X') + '  __gmpz_clear (&X);\n}',     # leak check: the block must really be released, with its exact size (stub)
+    muts=[(r'm->_mp_alloc', '(m->_mp_alloc + 1)')]))
+UNITS.append(lifecycle('mpz_realloc2', 'mpz/realloc2.c', '__gmpz_realloc2',
+    '''void __gmpz_realloc2 (mpz_ptr m, mp_bitcnt_t bits)
+__CPROVER_requires (V_WF (m) && bits <= 64 * (mp_bitcnt_t) V_ZMAX && V_GHOSTS_OK)
+__CPROVER_assigns (*m)
+__CPROVER_frees (V_PTR (m))
+__CPROVER_ensures (V_ALLOC (m) == (bits == 0 ? 1 : (long) ((bits + 63) / 64)) && V_BLOCK (V_PTR (m), (long) V_ALLOC (m)))
+/* the value survives exactly when it still fits, else it becomes 0 (never an object with |size| > allocation) */
+__CPROVER_ensures (V_ABS ((long) __CPROVER_old (V_SIZ (m))) <= (long) V_ALLOC (m) ? V_SIZ (m) == __CPROVER_old (V_SIZ (m)) : V_SIZ (m) == 0)
+__CPROVER_ensures ((gk < V_ABSIZ (m)) ==> V_PTR (m)[gk] == V_OLDSEL (gk < V_ALLOC (m), V_PTR (m) + gk));
+''',
+    'void h_mpz_realloc2 (void) {\n  V_INSTALL_ALLOCATOR ();\n' + mpz_obj('X') + '  gk = nondet_long (); gj = nondet_long (); gh = nondet_long (); mp_bitcnt_t b = nondet_ulong ();\n  __gmpz_realloc2 (&X, b);\n  free (X._mp_d);\n}',
+    muts=[(r'> new_alloc\)', '> new_alloc + 1)')]))
+QOBJ = '''  __mpq_struct Q; { long a = nondet_long (), b = nondet_long (); __CPROVER_assume (1 <= a && a <= V_ZMAX && 1 <= b && b <= V_ZMAX);
+    Q._mp_num._mp_alloc = a; Q._mp_num._mp_d = malloc (a * 8); Q._mp_num._mp_size = nondet_long (); Q._mp_den._mp_alloc = b; Q._mp_den._mp_d = malloc (b * 8); Q._mp_den._mp_size = nondet_long ();
+    __CPROVER_assume (Q._mp_num._mp_d != (void *) 0 && Q._mp_den._mp_d != (void *) 0); }
+'''
+UNITS.append(lifecycle('mpq_init', 'mpq/init.c', '__gmpq_init',
+    'void __gmpq_init (mpq_ptr x) __CPROVER_requires (__CPROVER_w_ok (x, sizeof (*x))) __CPROVER_assigns (*x) __CPROVER_ensures (V_WFQ (x) && V_SIZ (V_NUM (x)) == 0 && V_SIZ (V_DEN (x)) == 1 && V_PTR (V_DEN (x))[0] == 1);\n',
+    'void h_mpq_init (void) { V_INSTALL_ALLOCATOR (); __mpq_struct Q; __gmpq_init (&Q); free (Q._mp_num._mp_d); free (Q._mp_den._mp_d); }',
+    props=('C04', 'C12', 'C15'), contracts=('mpz.h', 'c11.h', 'mpq.h'), muts=[(r'x->_mp_den._mp_d\[0\] = 1;', 'x->_mp_den._mp_d[0] = 0;')]))
+UNITS.append(lifecycle('mpq_clear', 'mpq/clear.c', '__gmpq_clear',
+    'void __gmpq_clear (mpq_ptr m) __CPROVER_requires (V_WFQ (m)) __CPROVER_assigns () __CPROVER_frees (V_PTR (V_NUM (m)), V_PTR (V_DEN (m)));\n',
+    'void h_mpq_clear (void) {\n  V_INSTALL_ALLOCATOR ();\n' + QOBJ + '  __gmpq_clear (&Q);\n}',
+    props=('C04', 'C12', 'C15'), contracts=('mpz.h', 'c11.h', 'mpq.h'), muts=[(r'm->_mp_den._mp_alloc', 'm->_mp_num._mp_alloc')]))
+FOBJ = '''  __mpf_struct F; { long pr = nondet_long (); __CPROVER_assume (1 <= pr && pr < V_ZMAX); F._mp_prec = pr; F._mp_d = malloc ((pr + 1) * 8); __CPROVER_assume (F._mp_d != (void *) 0); F._mp_size = nondet_long (); F._mp_exp = nondet_long (); }
+'''
+UNITS.append(lifecycle('mpf_clear', 'mpf/clear.c', '__gmpf_clear',
+    'void __gmpf_clear (mpf_ptr m) __CPROVER_requires (V_WFF (m)) __CPROVER_assigns () __CPROVER_frees (V_PTR (m));\n',
+    'void h_mpf_clear (void) {\n  V_INSTALL_ALLOCATOR ();\n' + FOBJ + '  __gmpf_clear (&F);\n}',
+    props=('C04', 'C13', 'C15'), contracts=('mpz.h', 'c11.h', 'mpf.h'), muts=[(r'm->_mp_prec \+ 1', 'm->_mp_prec')]))
+UNITS.append(lifecycle('mpf_init2', 'mpf/init2.c', '__gmpf_init2',
+    '''void __gmpf_init2 (mpf_ptr r, mp_bitcnt_t prec_in_bits)
+__CPROVER_requires (__CPROVER_w_ok (r, sizeof (*r)) && prec_in_bits <= 64 * (mp_bitcnt_t) (V_ZMAX - 4))
+__CPROVER_assigns (*r)
+__CPROVER_ensures (V_WFF (r) && V_SIZ (r) == 0 && V_EXP (r) == 0)
+/* mpf_get_prec(r) = 64*prec - 64 bits is at least what was asked for (and at least 53) */
+__CPROVER_ensures ((mp_bitcnt_t) V_PREC (r) * 64 - 64 >= prec_in_bits && (mp_bitcnt_t) V_PREC (r) * 64 - 64 >= 53);
+''',
+    'void h_mpf_init2 (void) { V_INSTALL_ALLOCATOR (); __mpf_struct F; mp_bitcnt_t b = nondet_ulong (); __gmpf_init2 (&F, b); free (F._mp_d); }',
+    props=('C04', 'C13', 'C15'), contracts=('mpz.h', 'c11.h', 'mpf.h'), muts=[(r'\(prec \+ 1\) \* 8', '(prec) * 8')]))
